@@ -12,23 +12,25 @@ which `importLog` differs from the live write path (see `Ledger/Props/C08.lean`)
 * account `SET_METADATA` on an account whose `first_usage` lies after the log date
   (replay lowers `first_usage` to the log date);
 * account `DELETE_METADATA` on an existing account (replay restamps `updated_at` with
-  the import's `transaction_date()`);
-* a transaction whose Numscript run locked (`GetBalances`: `INSERT (0,0) ON CONFLICT
-  DO NOTHING`) an `accounts_volumes` row that none of its postings touches: the live
-  ledger keeps that zero row, the replay never creates it.
+  the import's `transaction_date()`).
+
+`accounts_volumes` is compared as VALUES (DESIGN §3.0): a `(0,0)` row equals the
+empty fold.  The live write path creates such rows when the Numscript runtime locks a
+balance (`GetBalances`: `INSERT (0,0) ON CONFLICT DO NOTHING`) that no posting then
+touches; `importLog` never locks.  `Db.norm` drops them on both sides.
 -/
 namespace Ledger.Ctrl
 open Ledger.Base Ledger.Core
 
-/-- Every `accounts_volumes` row after the write existed before or is touched by the postings. -/
-def volumesCovered (d d' : Db) (ps : List Posting) : Bool :=
-  d'.volumes.keys.all fun k => d.volumes.contains k || (volumeUpdates ps).contains k
+/-- `accounts_volumes` as values: `(0,0)` rows dropped. -/
+def normVolumes (v : PCV) : PCV := v.filter fun e => e.2 ≠ Volumes.zero
 
-/-- `l`, committed on tables `d` with result `d'`, is replayed faithfully by `importLog`. -/
-def logSafe (d d' : Db) (l : Log) : Bool :=
+/-- The tables, volumes up to zero rows. -/
+def Db.norm (d : Db) : Db := { d with volumes := normVolumes d.volumes }
+
+/-- `l`, committed on tables `d`, is replayed faithfully by `importLog`. -/
+def logSafe (d : Db) (l : Log) : Bool :=
   match l.payload with
-  | .created tx _ => volumesCovered d d' tx.postings
-  | .reverted _ rev => volumesCovered d d' rev.postings
   | .savedMeta (.account a) m =>
     match d.accounts.get? a with
     | none =>
@@ -42,7 +44,7 @@ def logSafe (d d' : Db) (l : Log) : Bool :=
 def replaySafe (strict : Bool) : State → List Op → Bool
   | _, [] => true
   | s, op :: r =>
-    ((step strict s op).1.db.logs.drop s.db.logs.length).all (logSafe s.db (step strict s op).1.db)
+    ((step strict s op).1.db.logs.drop s.db.logs.length).all (logSafe s.db)
       && replaySafe strict (step strict s op).1 r
 
 end Ledger.Ctrl
